@@ -73,6 +73,14 @@ func serialBus(id string, seed int64, writer bool) *trace.Scenario {
 			}
 			m.M.Write(uint16(a), uint8(v))
 			sc.Ev = append(sc.Ev, []any{"w", a, v})
+			if a == 0xff02 && !long && rng.Intn(3) == 0 {
+				// nothing is on the other end of the cable: however long the program waits after starting a
+				// transfer, SC and SB read what they read before
+				for k := 1000 + rng.Intn(3500); k > 0; k-- {
+					m.Hardware()
+				}
+				sc.Ev = append(sc.Ev, []any{"r", 0xff02, int(m.M.Read(0xff02))}, []any{"r", 0xff01, int(m.M.Read(0xff01))})
+			}
 		}
 		for k := rng.Intn(3); k > 0; k-- {
 			m.Hardware()
